@@ -163,6 +163,35 @@ class SimLock(_Handle):
         return False
 
 
+class SimRLock(SimLock):
+    """Re-entrant flavour: the owning task may take it again (a finaliser that the collector runs inside a critical section does)."""
+    _kind = "rlock"
+
+    def __init__(self, *a, **k):
+        super().__init__()
+        self._core.depth = 0
+
+    def acquire(self, blocking=True, timeout=-1):
+        s = _sim()
+        c = self._core
+        if s is not None and c.owner is not None and c.owner is s.me():
+            c.depth += 1
+            s.count("rlock_reentered")
+            return True
+        got = super().acquire(blocking, timeout)
+        if got:
+            c.depth = 1
+        return got
+
+    def release(self):
+        c = self._core
+        if c.depth > 1:
+            c.depth -= 1
+            return
+        c.depth = 0
+        super().release()
+
+
 class SimSemaphore(_Handle):
     _kind = "sem"
 
@@ -646,7 +675,7 @@ class SimProcess:
     kill = terminate
 
 
-_KINDS = {"event": SimEvent, "lock": SimLock, "sem": SimSemaphore, "array": SimArray, "queue": SimQueue}
+_KINDS = {"event": SimEvent, "lock": SimLock, "rlock": SimRLock, "sem": SimSemaphore, "array": SimArray, "queue": SimQueue}
 
 
 # ----------------------------------------------------------------------------- context objects
@@ -654,7 +683,7 @@ class SimContext:
     """What ``mp.get_context('spawn')`` returns inside the simulation."""
     Event = SimEvent
     Lock = SimLock
-    RLock = SimLock
+    RLock = SimRLock
     Semaphore = SimSemaphore
     BoundedSemaphore = SimSemaphore
     Queue = SimQueue
